@@ -302,6 +302,13 @@ def negative_reads(tid, chrom, strand, exons, delta=0):
             out.append(("intron-moved-up", [(exons[0][0], exons[0][1] - 120), (exons[1][0] - 120, exons[1][1])] + list(exons[2:])))
         out.append(("extended", [(exons[0][0] - 450, exons[0][1])] + list(exons[1:])))           # left end extended by 450 bp
         out.append(("extended-right", list(exons[:-1]) + [(exons[-1][0], exons[-1][1] + 450)]))   # right end extended by 450 bp
+    if n >= 2:
+        # two extra exons beyond the annotated end (start): a 150-bp exon and a 30-bp outermost one - the short outermost exon may be an
+        # alignment artefact, the 150-bp exon behind it is an extra exon all the same
+        e = exons[-1][1]
+        out.append(("two-extra-exons-right", list(exons) + [(e + 201, e + 350), (e + 551, e + 580)]))
+        b = exons[0][0]
+        out.append(("two-extra-exons-left", [(b - 580, b - 551), (b - 350, b - 201)] + list(exons)))
     if n >= 3:
         # the last exon replaced by a block of the SAME length 500 bp further downstream (acceptor and end both 500 bp away): IsoQuant's
         # terminal-exon-misalignment heuristic compares exon lengths only
